@@ -222,7 +222,7 @@ func (k *worker) upRun(run int, sc map[string]any, big int, corrupt string) ([]m
 	off := 0       // offset the client resumes from (as the server reported)
 	var pend []byte
 	pendSet := false
-	request := func(resume bool) (bool, error) {
+	request := func(resume bool, withSize bool) (bool, error) {
 		ev := map[string]any{"op": "request", "replied": false, "err": false, "has107": false}
 		fields := []sim.F{nameF, pathF}
 		if resume {
@@ -232,13 +232,22 @@ func (k *worker) upRun(run int, sc map[string]any, big int, corrupt string) ([]m
 				ev["incSize"] = int(st.Size())
 			}
 			fields = append(fields, sim.Fld(sim.FFileTransferOptions, sim.U16(1)))
-		} else {
+		}
+		// the transfer size (field 108) is optional in a 203 request, with and without the resume option: both
+		// variants of both requests (the step may fix it, otherwise it is drawn)
+		if withSize {
 			total := len(s.hdr) + 16 + s.N
 			if s.R >= 0 {
 				total += 16 + s.R
 			}
+			if resume {
+				if st, err := os.Stat(s.final + ".incomplete"); err == nil {
+					total -= int(st.Size())
+				}
+			}
 			fields = append(fields, sim.Fld(sim.FTransferSize, sim.U32(total)))
 		}
+		ev["size108"] = withSize
 		rep, replied, closed := k.ask(sim.TUploadFile, fields...)
 		ev["replied"] = replied
 		ev["closed"] = closed
@@ -270,12 +279,18 @@ func (k *worker) upRun(run int, sc map[string]any, big int, corrupt string) ([]m
 		return ref != nil, nil
 	}
 
+	sizeOf := func(step map[string]any) bool {
+		if v, ok := step["size"].(bool); ok {
+			return v
+		}
+		return r.Intn(2) == 0
+	}
 	steps, _ := sc["steps"].([]any)
 	for _, st := range steps {
 		step := st.(map[string]any)
 		switch step["op"].(string) {
 		case "request":
-			ok, err := request(false)
+			ok, err := request(false, sizeOf(step))
 			if err != nil {
 				return nil, err
 			}
@@ -285,7 +300,7 @@ func (k *worker) upRun(run int, sc map[string]any, big int, corrupt string) ([]m
 			pend, pendSet = nil, false
 		case "resume":
 			_, statErr := os.Stat(s.final + ".incomplete")
-			ok, err := request(statErr == nil) // no partial file in the listing: a client starts afresh
+			ok, err := request(statErr == nil, sizeOf(step)) // no partial file in the listing: a client starts afresh
 			if err != nil {
 				return nil, err
 			}
